@@ -37,7 +37,7 @@ CHECKS = {
   ),
   "C13": dict(
     technique="property-based round-trip and differential testing (proptest): ModuleInfo -> JSON -> ModuleInfo on analyser-produced values (thorough tier: also inside a coverage-guided libFuzzer target over arbitrary parsable text); moduleGraph1 rendering upgraded vs the moduleGraph2 original; registry built from embedded module info vs from parsing",
-    text="(a) every ModuleInfo the analyser produces from generated programs round-trips through its JSON form (equality and fixed point); (b) the legacy rendering of the same value (types specifier replaced by the leading comment) upgrades to the same @deno-types text and range; (c) generated registries published with moduleGraph2 computed by this analyser vs without, with a cache image deciding cached/uncached content per file, under all graph kinds: equal serialised graph, source texts and errors. Exploration only.",
+    text="(a) every ModuleInfo the analyser produces from generated programs round-trips through its JSON form (equality and fixed point); (b) the legacy rendering of the same value (types specifier replaced by the leading comment) upgrades to the same @deno-types text and range (empty attribute clauses and leading comments included); (c) generated registries published with moduleGraph2 computed by this analyser vs without, with a cache image deciding cached/uncached content per file, under all graph kinds: equal serialised graph, source texts and errors. Exploration only.",
     design_ref="DESIGN.md §4 C13",
     note="Trusted: serde_json; the registry materialiser (engine/src/registry.rs).",
   ),
@@ -67,28 +67,28 @@ CHECKS = {
   ),
   "C02": dict(
     technique="property-based testing (proptest) with two reference oracles: world truth for code validation (reachability over source-declared dependencies) and the reference walk for the error listing under all 36 option sets",
-    text="Failure-rich generated worlds. valid() and walk(code, follow_dynamic).validate() must fail iff a failing entry, failed resolution, https->http import or remote->file:// import is reachable along the edges the sources declare; the reported error must be one of those; the full error listing equals the reference walk for every option combination; every error range is a dependency range of its referrer. Exploration only.",
+    text="Failure-rich generated worlds. valid() and walk(code, follow_dynamic).validate() must fail iff a failing entry, failed resolution, https->http import or remote->file:// import is reachable along the edges the sources declare; the reported error must be one of those; the full error listing equals the reference walk for every option combination (a tenth of the cases: registry-package graphs after fast check with a missing implementation-only import, so the fast-check preference matters); every error range is a dependency range of its referrer. Exploration only.",
     design_ref="DESIGN.md §4 C02",
     note="Trusted: refmodel.rs, refwalk.rs; entry states are taken from the graph (C01 validates them against the world).",
   ),
   "C20": dict(
     technique="property-based testing against a reference decoder (proptest): stored text, original bytes and size vs a WHATWG-transcribed decoder over generated byte strings x charset labels x module shapes",
-    text="Generated byte strings (UTF-8/UTF-16LE/BE/windows-1252 encodings of text with BOM variants, inserted invalid bytes, truncation) served under 15 charset labels or none, as local/remote JSON roots, TypeScript roots, attributed JSON imports and (plain UTF-8 with or without BOM) files of a JSR package with / without embedded module information. Stored text must equal the reference decoding with the BOM removed, unsupported labels must give a decode error and no module, try_get_original_bytes() is None or the exact supplied bytes, serialised size = text byte length. Exploration only.",
+    text="Generated byte strings (UTF-8/UTF-16LE/BE/windows-1252 encodings of text with BOM variants, inserted invalid bytes, truncation) served under 15 charset labels or none, as local/remote JSON roots, TypeScript roots, attributed JSON imports and (plain UTF-8 with or without BOM) files of a JSR package with / without embedded module information; a share of the remote cases is delivered by the retry after a checksum failure. Stored text must equal the reference decoding with the BOM removed, unsupported labels must give a decode error and no module, try_get_original_bytes() is None or the exact supplied bytes, serialised size = text byte length. Exploration only.",
     design_ref="DESIGN.md §4 C20",
     note="Trusted: the reference decoder in engine/src/props/c20.rs (covers exactly the generated labels). Quoted charset parameters are not generated.",
   ),
   "C03": dict(
     category="fault_enumeration",
     technique="fault injection driven by property-based generation (proptest) plus exhaustive single-fault enumeration on small worlds; invariant, fault->error and metamorphic isolation oracles",
-    text="Every load call of the fault-free build is a fault position. Exhaustive layer: for base worlds with <= 7 load calls every (call x fault kind) single fault is injected; sampled layer: plans of 0-4 faults on larger worlds plus npm resolver failures. Oracles: no panic / no hang (watchdog), no pending entry in the serialised graph, every fired missing/error fault has an error entry with a referrer, and every module that does not depend on a faulted specifier is byte-identical to the fault-free build. Registry metadata faults are not injected yet.",
+    text="Every load call of the fault-free build is a fault position. Exhaustive layer: for base worlds with <= 7 load calls every (call x fault kind) single fault is injected; sampled layer: plans of 0-4 faults on larger worlds plus npm resolver failures, a generated registry (faults on package metadata, version manifests, files, deferred content loads of files with embedded module information, the registry entry added by a second build()). Oracles: no panic / no hang (watchdog), no pending entry in the serialised graph, every fired missing/error fault has an error entry with a referrer, a package file answered with a redirect has the error under its own entry, and every module that does not depend on a faulted specifier is byte-identical to the fault-free build.",
     design_ref="DESIGN.md §4 C03",
-    note="Trusted: harness loader and fault plan (engine/src/harness.rs). Faults on registry metadata / content loads and the cache-only probe are not covered yet (no registry in these worlds).",
+    note="Trusted: harness loader and fault plan (engine/src/harness.rs); the dependence closure of the isolation relation (DESIGN §4 C03). The cache-only probe is answered 'not cached' or from a cache image, never faulted itself.",
   ),
   "C04": dict(
     technique="schedule exploration with a harness-owned scheduler: proptest-generated completion orders, re-runs with fresh hasher state, and exhaustive stateless DFS over all completion orders of small worlds; differential oracle against the identity schedule",
-    text="The loader's futures are gates released one at a time by the harness, so the interleaving is an input. Each world is built once ungated and then under drawn schedules and repeated runs; serialised graph, every error with its referrer, and lockfile writes must be identical. Exhaustive layer: all completion orders of small worlds (budgeted; evidence reports whether every tree was finished). Worlds have no jsr registry yet.",
+    text="The loader's futures are gates released one at a time by the harness, so the interleaving is an input. Each world is built once ungated and then under drawn schedules and repeated runs; serialised graph, every error with its referrer, and lockfile writes must be identical. Exhaustive layer: all completion orders of small worlds (budgeted; evidence reports whether every tree was finished). More than half of the worlds carry a generated jsr registry (metadata, manifests, prefer-cached probing, packages sharing a failing npm dependency).",
     design_ref="DESIGN.md §4 C04",
-    note="Trusted: the gate scheduler (engine/src/harness.rs::drive) and the pass-through executor. jsr metadata loads (the FuturesUnordered / HashMap-ordered parts) are not exercised until registry worlds are added.",
+    note="Trusted: the gate scheduler (engine/src/harness.rs::drive) and the pass-through executor (task interleavings beyond load completion order are not explored).",
   ),
   "C14": dict(
     technique="property-based metamorphic testing (proptest): every lookup API vs what walk([s]) reaches, over generated redirect chains, cycles, lockfile-seeded and loader-followed redirects",
@@ -98,21 +98,21 @@ CHECKS = {
   ),
   "C15": dict(
     technique="property-based testing against a reference model (proptest): ModuleGraph::walk vs a set-based reachability model over the graph's recorded dependencies, all 36 option combinations per graph",
-    text="Generated-input search with a reference-model oracle: the yielded set (both inclusions, no duplicates), the entry attached to each yielded specifier and the multiset of reported errors are compared with engine/src/refwalk.rs for every option combination, drawn root subsets and skip set; a quarter of the graphs are generated registry packages on which fast check has run (fast-check dependency maps)s. Exploration: bounded by the generated graphs.",
+    text="Generated-input search with a reference-model oracle: the yielded set (both inclusions, no duplicates), the entry attached to each yielded specifier and the multiset of reported errors are compared with engine/src/refwalk.rs for every option combination, drawn root subsets and skip set; a quarter of the graphs are generated registry packages on which fast check has run (fast-check dependency maps). Exploration: bounded by the generated graphs.",
     design_ref="DESIGN.md §4 C15",
     note="Trusted: proptest; the reference walk (written from the WalkOptions rustdoc and the statement); graphs come from the shared world generator.",
   ),
   "C18": dict(
     technique="property-based metamorphic + differential testing (proptest): segment(R) vs the original graph (every dependency lookup, validation, error listing) and vs build(R)",
-    text="Generated-input search with two oracles: (a) metamorphic self-containment - every dependency of every module of the segment resolves (both type preferences) to the same module or error as in the original, same validation verdicts and error listings from the segment roots; (b) differential - entries, redirects and serialised modules equal a direct build of the segment roots when those were not roots of the original. Exploration only.",
+    text="Generated-input search with two oracles: (a) metamorphic self-containment - every dependency of every module of the segment resolves (both type preferences) to the same module or error as in the original, same validation verdicts and error listings from the segment roots; (b) differential - entries, redirects and serialised modules equal a direct build of the segment roots when those were not roots of the original. Segment roots include redirect sources; some graphs are registry packages after fast check. Exploration only.",
     design_ref="DESIGN.md §4 C18",
     note="Trusted: proptest and the harness loader. Known findings (context-sensitive acceptance of unknown/JSON answers, source-map assets) are listed in known_findings.json; domain restrictions are in the evidence assumptions.",
   ),
   "C19": dict(
     technique="property-based testing over generated histories (proptest): sequences of build() calls, rebuilds and edit+reload() rounds vs from-scratch builds",
-    text="Generated histories (partition of the roots into successive builds, rebuild of a known root, up to three rounds of source edits each followed by reload of the changed specifiers, named by their final specifier or by the head of a recorded redirect chain) checked against a from-scratch build of the same / the edited sources: equal entries, serialised modules and redirects for everything the fresh graph contains, untouched entries byte-identical, no loads and no change when a known root is built again. Exploration only.",
+    text="Generated histories (partition of the roots into successive builds, rebuild of a known root, up to three rounds of source edits each followed by reload of the changed specifiers, named by their final specifier or by the head of a recorded redirect chain) checked against a from-scratch build of the same / the edited sources: equal entries, serialised modules and redirects for everything the fresh graph contains, untouched entries byte-identical, no change when a known root is built again; every other history shares one capturing analyser (parsed-source cache) between its builds and reloads. Exploration only.",
     design_ref="DESIGN.md §4 C19",
-    note="Trusted: proptest and the harness loader. Worlds carry no `type` attributes or source-map URLs (the attribute class of a target must be stable over time); context-sensitive acceptance divergences are known findings.",
+    note="Trusted: proptest and the harness loader. Worlds carry no source-map URLs and `type` attributes only in a structural sub-domain (JSON targets every importer requests as json: the attribute class of a target must be stable over time); context-sensitive acceptance divergences are known findings.",
   ),
   "C16": dict(
     technique="property-based testing (proptest) with a multi-module TypeScript program generator: validity predicate over every symbol table, reference fixpoint of the resolved export set from an independent AST walk, termination and answer shape of go-to-definition under a watchdog; plus the symbols / graph spec corpus",
